@@ -16,6 +16,7 @@ nothing is checked out and the proxy pool's wrapper map is empty.
 import asyncio
 import functools
 import io
+import os
 import ssl
 
 import compat  # noqa: F401
@@ -90,6 +91,34 @@ class Server:
             if path.startswith(b'http://') or path.startswith(b'https://'):
                 path = b'/' + path.split(b'/', 3)[3] if path.count(b'/') >= 3 else b'/'
             close = target.endswith(b'close')
+            robots = None
+            if path == b'/robots.txt':
+                hostline = [l for l in head.split(b'\r\n')[1:] if l.lower().startswith(b'host:')]
+                hostname = hostline[0].split(b':', 1)[1].strip().split(b':')[0] if hostline else b''
+                robots = hostname
+            if robots is not None and robots.startswith(b'r') and robots.endswith(b'.test') and not robots.startswith(b'rx'):
+                kind = robots[1:-5]
+                if kind == b'reset':
+                    loop.call_soon(conn.close)          # no answer at all
+                    continue
+                if kind in (b'404', b'500'):
+                    body = b'no'
+                    msg = b'HTTP/1.1 %s X\r\nContent-Length: 2\r\n\r\n' % kind + body
+                else:
+                    # redirects: 'redir' same host (keep-alive), 'redirc' same host (closing), 'redirx' to another host,
+                    # 'redir2' a chain of two
+                    loc = {b'redir': b'/robots-final.txt', b'redirc': b'/robots-final.txt',
+                           b'redirx': b'http://origin1.test/robots.txt', b'redir2': b'/hop1k/robots-final.txt'}.get(kind, b'/robots-final.txt')
+                    close = kind == b'redirc'
+                    msg = (b'HTTP/1.1 301 Moved\r\nLocation: ' + loc + b'\r\nContent-Length: 5\r\n'
+                           + (b'Connection: close\r\n' if close else b'') + b'\r\nmoved')
+
+                def deliver_r(conn=conn, msg=msg, close=(kind == b'redirc')):
+                    conn.send(msg)
+                    if close:
+                        conn.close()
+                loop.call_soon(deliver_r)
+                continue
             hop = None
             if path.startswith(b'/hop') and len(path) > 5 and path[4:5].isdigit():
                 hop = (int(path[4:5]), path[5:6], path[6:])
@@ -308,7 +337,7 @@ def run_case(case):
     from wpull.protocol.http.request import Request
     from wpull.protocol.http.stream import Stream
     from wpull.network.pool import ConnectionPool
-    from wpull.errors import NetworkError, ProtocolError
+    from wpull.errors import NetworkError, ProtocolError, ServerError
 
     world = World()
     loop = sched.new_det_loop(case['seed'])
@@ -318,6 +347,7 @@ def run_case(case):
     if case['stream'] == 'session':
         net.limit = case['M']
     table = {'origin%d.test' % k: '10.0.1.%d' % (10 + k) for k in range(4)}
+    table.update({h: '10.0.2.%d' % (10 + k) for k, h in enumerate(ROBOTS_HOSTS)})
     # stdlib entry points of this loop only: no thread pool, no system resolver (a client that silently builds its own
     # default pool gets wpull's default Resolver)
     compat.disable_dns_python()
@@ -378,6 +408,21 @@ def run_case(case):
                     pending_fault['w%s' % i] = tuple(fault)     # pairs (event, kind)
                 which = (i if isinstance(i, int) else 0) % 2
                 client, web_client = clients[which], web_clients[which]
+                if mode == 'robots':
+                    import tempfile
+                    from wpull.protocol.http.robots import RobotsTxtChecker
+                    checker = RobotsTxtChecker(web_client=web_client)
+                    f = tempfile.NamedTemporaryFile(prefix='c12robots', dir=os.environ.get('TMPDIR') or None)
+                    try:
+                        await compat._ensure(checker.can_fetch(Request(url), file=f))
+                    finally:
+                        try:
+                            f.close()
+                        except Exception:
+                            pass
+                    for _ in range(linger):
+                        await compat._ensure(_yield_once())
+                    return
                 if mode in ('client', 'client-abandon'):
                     with client.session() as session:
                         await compat._ensure(session.start(Request(url)))
@@ -403,9 +448,10 @@ def run_case(case):
                         await fetch(i, url, linger, mode, fault)
                     except (InjectedOSError, InjectedError):
                         pass                # the injected listener failure reaches the caller: fine
-                    except (NetworkError, ProtocolError, OSError) as e:
+                    except (NetworkError, ProtocolError, OSError, ServerError) as e:
                         world.fetch_errors.append((i, url, repr(e)))
-                        if not faulty and not fault:
+                        scripted = mode == 'robots' and ('//r500.' in url or '//rreset.' in url)
+                        if not faulty and not fault and not scripted:
                             world.fail('error', 'fetch-failed', 'worker %s: %s failed with %r although the server behaved' % (i, url, e))
                     except asyncio.CancelledError:
                         raise
@@ -516,6 +562,7 @@ async def _wait(task):
     await asyncio.wait([task])
 
 
+ROBOTS_HOSTS = ('r404.test', 'r500.test', 'rredir.test', 'rredirc.test', 'rredirx.test', 'rredir2.test', 'rreset.test')
 BAD_TUNNEL = 'badtunnel.test'
 GARBLED = 'garbled.test'
 NET_KINDS = ('refused', 'oserror', 'timeout', 'sslcert')
@@ -552,6 +599,11 @@ def gen_case(rng, stream, faults=False):
                     fault = tuple(sorted(set(fault)))
                 if stream == 'proxy' and scheme == 'https' and rng.random() < 0.2:
                     host = rng.choice([BAD_TUNNEL, GARBLED])
+            if stream == 'session' and rng.random() < 0.25:
+                # robots.txt fetch through RobotsTxtChecker; the host decides how /robots.txt is answered
+                mode = 'robots'
+                host = rng.choice(ROBOTS_HOSTS + ('rredir.test', 'rredirc.test', 'origin0.test'))
+                path = '/page%d' % j
             jobs.append(('%s://%s%s' % (scheme, host, path), rng.choice([0, 0, 1, 2, 4, 8]), mode, fault))
         workers.append(jobs)
     case = {'stream': stream, 'seed': rng.randrange(1 << 30), 'M': m, 'workers': workers}
@@ -611,6 +663,10 @@ def check(ctx, case):
         tags.append('front:redirect-chain')
     if world.idle_closed:
         tags.append('front:server-closed-idle-connection')
+    for jobs in case['workers']:
+        for j in jobs:
+            if j[2] == 'robots':
+                tags.append('front:robots:' + j[0].split('/')[2])
     for k in ('netfaults', 'tlsfaults'):
         for kind in (case.get(k) or {}).values():
             tags.append('front:%s:%s' % (k, kind))
